@@ -266,7 +266,8 @@ CLAIMED = {
         "text": "FwdModelZi.tla IS the independent reference implementation the property asks for: a step-wise "
                 "(Start, Transmit, ToSpectrum, Propagate, Back, Detect) multislice mixed-state forward model over "
                 "the Gaussian integers - ROI 2x2 / 4x4 (DFT entries in {1,-i,-1,i}), quarter-turn object phases, "
-                "Gaussian-integer probe modes, integer scan positions with wrap-around, quarter-wave slices. TLC "
+                "Gaussian-integer probe modes, integer AND half-pixel scan positions (2x2 ROI: the sub-pixel Fourier "
+                "shift is exact in the Gaussian integers after scaling) with wrap-around, quarter-wave slices. TLC "
                 "checks WaveEnergy at every step, IntensityConserved and Orthogonal, rejects a wrong twiddle "
                 "exponent, and exports the exact integer patterns unperturbed and with one object pixel / one "
                 "probe pixel turned by a quarter turn. The library is fed the exact data (Dataset4dstem -> its own "
@@ -275,11 +276,32 @@ CLAIMED = {
                 "type (complex, pure_phase, potential) and object padding; at TLC-certified perturbations the loss "
                 "must be strictly larger. This decides the convention half of the property (patch index order and "
                 "wrap, fftshift, normalisation, propagator sign, mode sum) exactly.",
-        "note": "NOT reached: fractional positions, odd / non-square ROIs, generic phases and probes, constant "
+        "note": "NOT reached: fractional positions other than half pixels, odd / non-square ROIs, generic phases and probes, constant "
                 "descan (the exact sub-domain only). Trusted: TLC arithmetic, the fixture's geometry glue. Zero "
                 "tolerances reflect the library's eps=1e-9 under the square root.",
         "technique": "TLA+ Gaussian-integer reference model executed by TLC; exact data replayed into the "
                      "library's forward pipeline",
         "design_ref": "DESIGN.md section 4 (C02)",
+    },
+    "C20": {
+        "text": "NormOrder.tla models display normalisation ordinally and in exact rationals: arrays (length 2..4) "
+                "over small integers and the tokens NaN/+inf/-inf with at least two distinct finite values; "
+                "manual (given / data-derived limits), centred (given / data-derived half range) and quantile "
+                "(numpy linear interpolation) intervals with lo < hi; every element mapped to "
+                "clip((x-lo)/(hi-lo), 0, 1), NaN masked, a stretch abstracted to ANY strictly increasing "
+                "bijection of [0,1] fixing 0 and 1. TLC checks Range, Monotone, EndPoints and NaNMasked over "
+                "every array x configuration and rejects a variant that does not clip below the lower limit. "
+                "Every exported case is replayed into CustomNormalization for 8 stretch configurations, limits "
+                "taken at call time and frozen from data=, float64/float32/int32/int64, 1-D/2-D: masked pattern, "
+                "0 / 1 / interior classification, the order of the outputs, the frozen limits and (linear "
+                "stretch) the values must be the model's. The abstraction premise - each concrete stretch is a "
+                "strictly increasing bijection fixing 0 and 1, and stretch o inverse = id - is checked on a "
+                "41-point grid for 17 stretch objects; all named presets run on every fifth case.",
+        "note": "The real-valued part (monotonicity of each stretch between grid points, arbitrary float "
+                "parameters) is sampled, not decided: the model decides the interval/clip/mask logic exactly and "
+                "the ORDER consequences. Trusted: TLC arithmetic; float comparison at 2e-6 (float32 inputs).",
+        "technique": "TLA+ exact-rational / ordinal model checked by TLC; exported cases replayed into the "
+                     "implementation",
+        "design_ref": "DESIGN.md section 4 (C20)",
     },
 }
